@@ -172,10 +172,18 @@ class Run:
             if k == "insert_hugr":
                 _, sub, parent = op
                 r2 = Run(with_ref=True, nports=self.nports)
-                for o in sub:
+                for j, o in enumerate(sub):
                     t, _ = r2.apply(o)
                     if t != "ok":
                         return ("raise", "sub-history")
+                    if j in (len(sub) // 3, (2 * len(sub)) // 3):
+                        # B has a past: it was serialised and inserted somewhere before it got its final shape (seeded
+                        # change C04-15: the hierarchy walk memoised under a key that a delete + add leaves unchanged)
+                        for look in (lambda: r2.h.to_json(), lambda: type(r2.h)().insert_hugr(r2.h)):
+                            try:
+                                look()
+                            except Exception:  # noqa: BLE001
+                                pass
                 before_b = snapshot(r2.h)
                 mapping = h.insert_hugr(r2.h, self.node(parent) if parent is not None else None)
                 mp = {a.idx: b.idx for a, b in mapping.items()}
@@ -278,6 +286,25 @@ def _ms(xs):
     return sorted(map(repr, xs))
 
 
+_WRAP = []
+
+
+def _as_tonode(n):
+    """an object that is a `ToNode` without being a `Node` (what a builder is): hashable, `to_node()` gives the node"""
+    if not _WRAP:
+        from hugr.hugr.node_port import ToNode
+
+        class Wrapped(ToNode):
+            def __init__(self, node):
+                self._node = node
+
+            def to_node(self):
+                return self._node
+
+        _WRAP.append(Wrapped)
+    return _WRAP[0](n)
+
+
 def check_against_ref(h, ref: Ref, site, fails, handles=None):
     from hugr.hugr.node_port import Direction, Node
 
@@ -356,6 +383,18 @@ def check_against_ref(h, ref: Ref, site, fails, handles=None):
             ]
             if _ms(flat) != _ms(exp):
                 return F("link-listing", f"node {idx} {'out' if out else 'in'}: got {flat} expected {exp}")
+            # the same listing asked through another `ToNode` than the node handle itself (the queries take `ToNode`: a
+            # builder, or any object with `to_node()`) — seeded change C04-16: ports built from the raw argument
+            try:
+                w = _as_tonode(n)
+                listing2 = h.outgoing_links(w) if out else h.incoming_links(w)
+                flat2 = [((p.node.idx, p.offset), (q.node.idx, q.offset)) for p, qs in listing2 for q in qs]
+                cnt3 = h.num_outgoing(w) if out else h.num_incoming(w)
+                cnt4 = h.num_outgoing(n) if out else h.num_incoming(n)
+            except Exception as e:  # noqa: BLE001
+                return F("link-listing", f"node {idx} asked through a ToNode wrapper: {type(e).__name__}")
+            if _ms(flat2) != _ms(exp) or cnt3 != cnt4:
+                return F("link-listing", f"node {idx} {'out' if out else 'in'} asked through a ToNode wrapper: got {flat2} expected {exp}")
         oo = [m.idx for m in h.outgoing_order_links(n)]
         if _ms(oo) != _ms([d[0] for s, d in ref.links if s == (idx, -1)]):
             return F("order-link-listing", f"node {idx} out: {oo}")
